@@ -1074,7 +1074,39 @@ def check_outbuf(ctx, prog):
     check_dataw(ctx, prog)
 
 
-def check_fixed_buffers(ctx, prog, rule, only_file=None):
+_PER_UNIT = {}
+
+
+def encoder_max_bytes(prog, name):
+    """largest number of bytes (without the terminator) the encoder writes for ONE input unit, by interpreting its body
+    (scansim) on every kind of value a caller can hand it: the encoding boundaries, values beyond U+10FFFF up to INT_MAX and
+    negative values (a numeric character reference is any 32-bit value).  None when the body is outside the interpreted
+    fragment - the RFC figure is used then."""
+    key = (id(prog), name)
+    if key in _PER_UNIT:
+        return _PER_UNIT[key]
+    import scansim
+    res = None
+    fs = [g for g in prog.fn(name) if g.get('body') and len(g['params']) == 3]
+    if fs:
+        f = fs[0]
+        wide = name.endswith('utf32toUtf8')
+        codes = [1, 0x7f, 0x80, 0x7ff, 0x800, 0xd7ff, 0xd800, 0xdfff, 0xffff] + ([0x10000, 0x10ffff, 0x110000, 0x1fffff, 0x200000, 0x3ffffff, 0x4000000, 0x7fffffff, -1, -0x80000000] if wide else [])
+        worst = 0
+        try:
+            for cde in codes:
+                bufs = {'IN': [cde, 0], 'OUT': [scansim.UNINIT] * 16}
+                scansim.Run(prog, f, bufs, ptr_params={f['params'][0]['id']: ('P', 'IN', 0), f['params'][1]['id']: ('P', 'OUT', 0)}, int_params={f['params'][2]['id']: 1}).run()
+                wrote = max([i for i, b in enumerate(bufs['OUT']) if b != scansim.UNINIT] + [-1]) + 1
+                worst = max(worst, wrote - 1)       # the last byte written is the terminator
+            res = worst
+        except (scansim.Unsupported, scansim.OOB, TypeError, KeyError, IndexError):
+            res = None
+    _PER_UNIT[key] = res
+    return res
+
+
+def check_fixed_buffers(ctx, prog, rule, only_file=None, enc_prog=None):
     n = 0
     for f in prog.functions:
         if only_file and not f['file'].endswith(only_file):
@@ -1085,6 +1117,9 @@ def check_fixed_buffers(ctx, prog, rule, only_file=None):
             if e.get('k') != 'call' or e.get('fn') not in ENCODERS:
                 continue
             per = ENCODERS[e['fn']]
+            interp = encoder_max_bytes(enc_prog or prog, e['fn'])
+            if interp is not None:
+                per = max(per, interp)
             dest = strip(e['a'][1])
             cnt = const_val(e['a'][2])
             role = '%s:%s into `%s`' % (f['n'], e['fn'].split('::')[-1], pe(dest))
